@@ -33,6 +33,8 @@ class Ctx:
         self.skipped = []
         self.known = [k for k in load_known() if k['property'] == pid]
         self.replay_dir = os.path.join(ROOT, 'out', 'replays', pid)
+        import shutil
+        shutil.rmtree(self.replay_dir, ignore_errors=True)
 
     # ---- TLC ----
     def add_tlc(self, name, res, purpose=''):
